@@ -31,10 +31,10 @@ struct Gen {
 	std::string pos() { std::string s = nonzero(); Q v; parse_q(s, v); if (v < 0) v = -v; return v.get_str(); }
 
 	// ---------------------------------------------------------------- LP generator (families of DESIGN 3.5)
-	PlanLP gen_lp(int id, int maxn, int maxm) {
+	PlanLP gen_lp(int id, int maxn, int maxm, int minn = 1, int minm = -1) {
 		PlanLP L; L.id = id; L.objsense = r.chance(1, 2) ? 1 : -1;
 		numfam = (int)r.below(6);
-		int n = r.range(1, maxn), m = r.range(r.chance(1, 12) ? 0 : 1, maxm);
+		int n = r.range(minn, maxn), m = minm >= 0 ? r.range(minm, maxm) : r.range(r.chance(1, 12) ? 0 : 1, maxm);
 		int fam = (int)r.below(10);   // 0-3 feasible generic, 4 degenerate, 5 infeasible, 6 barely infeasible, 7 lower-dimensional face, 8 near-parallel, 9 unbounded-leaning
 		std::vector<Q> x0(n); std::vector<Num> lo(n), up(n);
 		// one LP in eight has names long enough for the writers to wrap objective and constraint lines
@@ -68,7 +68,7 @@ struct Gen {
 			else parse_q(num(), x0[j]);
 			L.cols.push_back(c);
 		}
-		int density = r.range(25, 90);
+		int density = r.range(25, 90); if (n > 20) density = r.range(4, 30);   // wide problems stay sparse
 		for (int i = 0; i < m; i++) {
 			PlanRow R; R.name = strf("r%d", i); if (r.chance(1, 10)) R.name = strf("con_%d", i); if (longnames && r.chance(1, 2)) R.name += tail();
 			Q act = 0;
@@ -230,6 +230,11 @@ void profile_resolve(Gen &g) {
 			if (r.chance(1, 2)) { static const char *w[] = {"chgcoef", "chgcoef", "chgcoef", "chgobj", "chgrhs", "chgbound", "chgsense", "chgrange"}; Op e2 = g.mk(0, "edit"); g.seti(e2, "o", 0); std::string what = w[r.below(8)]; g.set(e2, "what", what);
 				g.seti(e2, "i", r.below(30)); g.seti(e2, "j", r.below(30)); g.set(e2, "v", r.chance(1, 6) ? "0" : what == "chgrange" ? g.pos() : g.num()); g.set(e2, "lu", std::string(1, "LUB"[r.below(3)])); g.set(e2, "sense", std::string(1, "LGER"[r.below(4)])); ed = e2; }
 			p.ops.push_back(ed); }
+		if (r.chance(1, 6)) {   // the cutting-plane step: k rows in, k columns out (or the reverse) - the simplex column count stays, the row count moves
+			int kk = r.range(1, 2); bool rows_in = r.chance(2, 3);
+			for (int t = 0; t < kk; t++) { Op e; for (int q = 0; q < 60; q++) { e = g.gen_edit(0); std::string w = e.s("what"); if (rows_in ? (w == "addrow" || w == "newrow") : (w == "addcol" || w == "newcol")) break; } g.seti(e, "o", 0); p.ops.push_back(e); }
+			for (int t = 0; t < kk; t++) { Op e = g.mk(0, "edit"); g.seti(e, "o", 0); g.set(e, "what", rows_in ? "delcol" : "delrow"); g.seti(e, "i", r.below(30)); g.seti(e, "j", r.below(30)); p.ops.push_back(e); }
+		}
 		if (r.chance(1, 8)) { Op o = g.gen_param(0); g.seti(o, "o", 0); p.ops.push_back(o); }
 		Op s = direct(); if (g.faults && r.chance(1, 4)) g.add_interruption(s); p.ops.push_back(s);
 		if (r.chance(1, 5) && g.ok("tableau")) { Op t = g.mk(0, "tableau"); g.seti(t, "o", 0); p.ops.push_back(t); }
@@ -261,6 +266,25 @@ void profile_grow(Gen &g) {
 	p.knobs["indep"] = "0"; p.knobs["fresh"] = "0";
 }
 
+// bases: one small LP, many bases - made from patterns (every mix of basic set and at-lower/at-upper/free statuses) or handed
+// back by solves - put to the exact verdict functions and to warm-started solves (C12)
+void profile_bases(Gen &g) {
+	Plan &p = g.p; Rng &r = g.r;
+	p.lps.push_back(g.gen_lp(0, 5, 5, 1, 1));
+	Op cr = g.gen_create(0, 1); if (cr.s("how") == "empty") g.set(cr, "how", "build"); p.ops.push_back(cr);
+	if (r.chance(2, 3)) { Op s = g.gen_solve(0, r.chance(1, 2) ? "exact" : ""); g.seti(s, "o", 0); g.seti(s, "wantb", 1); p.ops.push_back(s); }
+	int n = r.range(6, 24);
+	for (int k = 0; k < n; k++) {
+		int d = (int)r.below(10);
+		if (d < 6) { Op o = g.mk(0, "verdict"); g.seti(o, "o", 0); g.set(o, "which", std::vector<std::string>{"optimal", "dual", "verify"}[r.below(3)]); g.seti(o, "pat", r.below(100000)); if (r.chance(1, 3)) g.seti(o, "k", r.below(8)); g.seti(o, "prestep", r.below(2)); p.ops.push_back(o); }
+		else if (d < 7) { Op o = g.mk(0, "basis"); g.seti(o, "o", 0); g.set(o, "what", "make"); g.seti(o, "pat", r.below(100000)); p.ops.push_back(o); }
+		else if (d < 9) { Op o = g.mk(0, "basis"); g.seti(o, "o", 0); g.set(o, "what", r.chance(1, 2) ? "load" : "loadarray"); g.seti(o, "k", r.below(8)); g.seti(o, "pat", r.below(100000)); p.ops.push_back(o);
+			Op s = g.gen_solve(0, r.chance(1, 3) ? "exact" : r.chance(1, 2) ? "primal" : "dual"); g.seti(s, "o", 0); g.seti(s, "wantb", 1); if (r.chance(1, 2)) g.seti(s, "warm", r.below(8)); p.ops.push_back(s); }
+		else { Op e = g.gen_edit(0); g.seti(e, "o", 0); p.ops.push_back(e); }
+	}
+	p.knobs["indep"] = "0";
+}
+
 // one LP, one or two objects, configuration and solves, float faults (C01/C02/C03/C12)
 void profile_solve(Gen &g) {
 	Plan &p = g.p; Rng &r = g.r;
@@ -283,14 +307,20 @@ void profile_solve(Gen &g) {
 // C04: one LP driven by several clients in different configurations, interleaved
 void profile_config(Gen &g) {
 	Plan &p = g.p; Rng &r = g.r;
-	p.lps.push_back(g.gen_lp(0, 6, 6));
+	// one LP in eight is wide or tall enough (more than 50 non-basic columns / rows) for partial pricing to have several groups;
+	// the reference simplex cannot judge those, the cross-configuration and certificate oracles can
+	{ int shape = (int)r.below(16); if (shape == 0) p.lps.push_back(g.gen_lp(0, 120, 5, 56, 2)); else if (shape == 1) p.lps.push_back(g.gen_lp(0, 5, 110, 2, 56)); else p.lps.push_back(g.gen_lp(0, 6, 6)); }
 	int nc = r.range(3, 6); std::vector<std::vector<Op>> per(nc);
 	for (int c = 0; c < nc; c++) {
 		Op cr = g.mk(c, "create"); g.seti(cr, "lp", 0); static const char *h[] = {"build", "build1", "colwise", "load"}; g.set(cr, "how", h[r.below(4)]); per[c].push_back(cr);
 		int np = r.range(0, 3); for (int k = 0; k < np; k++) { Op o = g.gen_param(c); g.seti(o, "o", 0); per[c].push_back(o); }
+		if ((p.lps[0].cols.size() > 50 || p.lps[0].rows.size() > 50) && c < 2) {   // with several groups to price, make sure partial pricing meets them
+			Op o = g.mk(c, "param"); g.seti(o, "o", 0); g.set(o, "what", c == 0 ? "pprice" : "dprice"); g.seti(o, "v", c == 0 ? 3 : 2); per[c].push_back(o);
+			if (r.chance(1, 2)) { Op s = g.mk(c, "param"); g.seti(s, "o", 0); g.set(s, "what", "scaling"); g.seti(s, "v", 0); per[c].push_back(s); } }
 		if (r.chance(1, 4)) { Op o = g.mk(c, "basis"); g.seti(o, "o", 0); g.set(o, "what", "make"); g.seti(o, "pat", r.below(100000)); per[c].push_back(o); }
 		int ns = r.range(1, 3);
-		for (int k = 0; k < ns; k++) { Op o = g.gen_solve(c, ""); g.seti(o, "o", 0);
+		bool big = p.lps[0].cols.size() > 50 || p.lps[0].rows.size() > 50;
+		for (int k = 0; k < ns; k++) { Op o = g.gen_solve(c, big ? (c == 0 ? "primal" : c == 1 ? "dual" : r.chance(1, 2) ? "primal" : "dual") : ""); g.seti(o, "o", 0);   // no exact driver on big problems: a ladder walk there costs minutes
 			if (g.faults && r.chance(1, 2)) { g.add_interruption(o); per[c].push_back(o); Op pp = g.gen_param(c); g.seti(pp, "o", 0); per[c].push_back(pp); Op o2 = g.gen_solve(c, o.s("how")); g.seti(o2, "o", 0); o2.a.erase("warm"); per[c].push_back(o2); }
 			else { if (g.faults && o.s("how") == "exact" && r.chance(1, 3)) g.add_float_faults(o, 2); per[c].push_back(o); } }
 	}
@@ -324,6 +354,7 @@ void profile_io(Gen &g, bool damage_heavy) {
 			g.set(w, "path", strf("f%d", nfile++)); g.seti(w, "comp", r.below(3)); io_faults(w, true); p.ops.push_back(w);
 			if (damage_heavy || (g.faults && r.chance(1, 3))) { int nd = r.range(1, 2); for (int t = 0; t < nd; t++) { Op dm = g.mk(0, "damage"); g.seti(dm, "pick", r.below(8)); g.set(dm, "kind", std::vector<std::string>{"torn", "flip", "zero_tail", "block_drop", "block_dup", "token", "token", "torn"}[r.below(8)]); g.seti(dm, "at", r.below(100000)); g.seti(dm, "len", r.below(56)); g.seti(dm, "bit", r.below(8)); p.ops.push_back(dm); } }
 			Op rd = g.mk(0, "read"); g.seti(rd, "pick", r.chance(1, 5) ? (long)r.below(6) : -1); g.set(rd, "via", r.chance(1, 3) ? "reader" : "path"); io_faults(rd, false); p.ops.push_back(rd);
+			if (r.chance(1, 10)) { Op ms = g.mk(0, "read"); g.set(ms, "fmt", r.chance(1, 2) ? "LP" : "MPS"); g.set(ms, "via", "path"); g.seti(ms, "missing", r.chance(1, 2) ? 5 : r.range(300, 900)); p.ops.push_back(ms); }
 			if (r.chance(1, 2)) {   // chain: write the re-read object in the other format and read again
 				Op w2 = g.mk(0, "write"); g.seti(w2, "o", -1); g.set(w2, "fmt", w.s("fmt") == "LP" ? "MPS" : "LP"); g.set(w2, "via", "path"); g.set(w2, "path", strf("f%d", nfile++)); g.seti(w2, "comp", r.below(3)); p.ops.push_back(w2);
 				Op r2 = g.mk(0, "read"); g.seti(r2, "pick", -1); g.set(r2, "via", "path"); p.ops.push_back(r2);
@@ -337,6 +368,10 @@ void profile_io(Gen &g, bool damage_heavy) {
 			Op f = g.mk(0, "foreign"); if (r.chance(1, 2)) g.seti(f, "o", r.below(4)); else g.seti(f, "lp", r.below(nl)); g.set(f, "fmt", r.chance(1, 2) ? "LP" : "MPS"); g.set(f, "path", strf("f%d", nfile++)); g.seti(f, "comp", r.below(3)); g.seti(f, "style", r.below(1000)); p.ops.push_back(f);
 			if (damage_heavy || (g.faults && r.chance(1, 2))) { Op dm = g.mk(0, "damage"); g.seti(dm, "pick", r.below(8)); g.set(dm, "kind", std::vector<std::string>{"torn", "flip", "token", "token", "block_dup"}[r.below(5)]); g.seti(dm, "at", r.below(100000)); g.seti(dm, "len", r.below(56)); g.seti(dm, "bit", r.below(8)); p.ops.push_back(dm); }
 			Op rd = g.mk(0, "read"); g.seti(rd, "pick", -1); g.set(rd, "via", r.chance(1, 3) ? "reader" : "path"); io_faults(rd, false); p.ops.push_back(rd);
+			if (r.chance(1, 2)) {   // what was read from a foreign producer (integer marks, odd layouts) goes through the library's own writers
+				Op w2 = g.mk(0, "write"); g.seti(w2, "o", -1); g.set(w2, "fmt", r.chance(1, 2) ? "MPS" : "LP"); g.set(w2, "via", "path"); g.set(w2, "path", strf("f%d", nfile++)); g.seti(w2, "comp", r.below(3)); p.ops.push_back(w2);
+				Op r2 = g.mk(0, "read"); g.seti(r2, "pick", -1); g.set(r2, "via", "path"); p.ops.push_back(r2);
+			}
 		}
 	}
 	p.knobs["indep"] = "0"; p.knobs["fresh"] = "0";
@@ -401,6 +436,7 @@ Plan make_plan(const std::string &profile, uint64_t seed, const Args &opts) {
 	else if (profile == "lu") profile_lu(g);
 	else if (profile == "resolve") profile_resolve(g);
 	else if (profile == "grow") profile_grow(g);
+	else if (profile == "bases") profile_bases(g);
 	else if (profile == "cli") profile_cli(g);
 	else if (profile == "reader") profile_io(g, true);
 	else profile_hist(g, false, false);
